@@ -3,6 +3,7 @@ package c04
 import (
 	"encoding/base64"
 	"fmt"
+	"strings"
 	"testing"
 
 	ct "github.com/google/certificate-transparency-go"
@@ -195,6 +196,15 @@ func judgeDS(v *harness.Verdict, data []byte) {
 	var d2 ct.DigitallySigned
 	e2 := d2.UnmarshalJSON([]byte(`"` + b64 + `"`))
 	completeVerdict(v, "DigitallySigned.UnmarshalJSON", data, e2, werr, wrest, func() bool { return eqDS(refFromRepoDS(cttls.DigitallySigned(d2)), want) })
+
+	// the same JSON string with its first character and every '/' escaped
+	esc := strings.ReplaceAll(b64, "/", `\/`)
+	if len(b64) > 0 {
+		esc = fmt.Sprintf(`\u%04x`, b64[0]) + strings.ReplaceAll(b64[1:], "/", `\/`)
+	}
+	var d3 ct.DigitallySigned
+	e5 := d3.UnmarshalJSON([]byte(`"` + esc + `"`))
+	completeVerdict(v, "DigitallySigned.UnmarshalJSON(escaped)", data, e5, werr, wrest, func() bool { return eqDS(refFromRepoDS(cttls.DigitallySigned(d3)), want) })
 
 	acr := ct.AddChainResponse{SCTVersion: ct.V1, ID: validID, Timestamp: 7, Extensions: "", Signature: data}
 	sct, e3 := acr.ToSignedCertificateTimestamp()
